@@ -85,7 +85,8 @@ def _pop_features(h):
             layer = None
             for c in exprs(last, "Call"):
                 if norm(c.get("callee", "")) == "core::option::Option::Some" and c.get("args"):
-                    layer = last_seg(def_path(c["args"][0]) or "")
+                    ls_ = [last_seg(def_path(p_)) for p_ in exprs(c["args"][0], "Path") if "Layer::" in (def_path(p_) or "")]
+                    layer = ls_[0] if len(ls_) == 1 else None
             if not layer:
                 continue
             for op, l, r, fr, certain in sem.weak_cmps(x.pc):
